@@ -1015,7 +1015,8 @@ def noaction_case(cfg, tools, env, path, treedir, rng):
     size = make_device(path, cfg, fill=fill)
     before = run.sha256_file(path)
     st0 = os.stat(path)
-    r = run.run(argv_for(cfg, tools["mke2fs"], path, treedir, noaction=True), env=env, timeout=300)
+    r = run.run(argv_for(cfg, tools["mke2fs"], path, treedir, noaction=True), env=env,
+                timeout=MKE2FS_TIMEOUT)
     after = run.sha256_file(path)
     st1 = os.stat(path)
     res = {"rc": r.rc, "sig": r.sig, "timed_out": r.timed_out, "size": size,
@@ -1036,7 +1037,7 @@ def repro_case(cfg, tools, env, path, treedir):
     res = {}
     for k in range(2):
         make_device(path, cfg)
-        r = run.run(argv_for(cfg, tools["mke2fs"], path, treedir), env=env, timeout=600)
+        r = run.run(argv_for(cfg, tools["mke2fs"], path, treedir), env=env, timeout=MKE2FS_TIMEOUT)
         res["rc"] = r.rc
         res["sig"] = r.sig
         if r.timed_out:
